@@ -50,6 +50,9 @@ pub struct Tbl {
     /// the history contains compact_files(defer_index_remap = true) on a table with stable row ids
     /// (known finding C05 stable_rowids_deferred_remap_unassigned_fragment_ids)
     pub deferred_remap_on_stable: bool,
+    /// false: compaction never uses defer_index_remap (hx_c18: with stable row ids that path is C05's known
+    /// finding and makes every later version unloadable)
+    pub allow_deferred_remap: bool,
 }
 
 /// Run a fallible async operation on its own task: Ok | Err((is_panic, message)).
@@ -127,7 +130,7 @@ impl Tbl {
         let rows: Vec<(i64, i64)> = (0..n as i64).map(|k| (k, x_of(k))).collect();
         let params = WriteParams { max_rows_per_file, max_rows_per_group: 1024, mode: WriteMode::Create, data_storage_version: Some(ver), enable_stable_row_ids: stable, ..Default::default() };
         let ds = Dataset::write(RecordBatchIterator::new(vec![Ok(mk_batch(&[], &rows))], mk_schema(&[])), &uri, Some(params)).await.unwrap();
-        Tbl { _dir: dir, uri, ds, stable, ver, max_rows_per_file, next_k: n as i64, extra: vec![], expect: rows.into_iter().collect(), hist: vec![format!("create n={n} max_rows_per_file={max_rows_per_file} version={ver} stable_row_ids={stable}")], verified: 0, expect_at: BTreeMap::new(), indexed: false, scope: None, deferred_remap_on_stable: false }
+        Tbl { _dir: dir, uri, ds, stable, ver, max_rows_per_file, next_k: n as i64, extra: vec![], expect: rows.into_iter().collect(), hist: vec![format!("create n={n} max_rows_per_file={max_rows_per_file} version={ver} stable_row_ids={stable}")], verified: 0, expect_at: BTreeMap::new(), indexed: false, scope: None, deferred_remap_on_stable: false, allow_deferred_remap: true }
     }
 
     fn pred(&self, rng: &mut Rng) -> (String, Box<dyn Fn(i64) -> bool + Send>) {
@@ -183,6 +186,32 @@ impl Tbl {
         self.ds = ds;
         let scope = self.scope.clone();
         self.expect.retain(|k, _| !(f(*k) && scope.as_ref().map(|s| s.contains(k)).unwrap_or(true)));
+        Ok(())
+    }
+    pub async fn delete_where(&mut self, p: &str, f: impl Fn(i64) -> bool) -> Result<(), (bool, String)> {
+        self.hist.push(format!("delete {p}"));
+        let mut ds = self.ds.clone();
+        let ps = p.to_string();
+        let ds = guarded(async move {
+            ds.delete(&ps).await?;
+            Ok(ds)
+        })
+        .await?;
+        self.ds = ds;
+        self.expect.retain(|k, _| !f(*k));
+        Ok(())
+    }
+    pub async fn update_where(&mut self, p: &str, f: impl Fn(i64) -> bool) -> Result<(), (bool, String)> {
+        self.hist.push(format!("update x = x + 1 where {p}"));
+        let ds = Arc::new(self.ds.clone());
+        let ps = p.to_string();
+        let res = guarded(async move { UpdateBuilder::new(ds).update_where(&ps)?.set("x", "x + 1")?.build()?.execute().await }).await?;
+        self.ds = (*res.new_dataset).clone();
+        for (k, x) in self.expect.iter_mut() {
+            if f(*k) {
+                *x += 1;
+            }
+        }
         Ok(())
     }
     pub async fn update(&mut self, rng: &mut Rng) -> Result<(), (bool, String)> {
@@ -281,7 +310,7 @@ impl Tbl {
     }
     pub async fn compact(&mut self, rng: &mut Rng) -> Result<(), (bool, String)> {
         let (a, b, c) = (*rng.pick(&[4usize, 8, 20, 64, 1024]), *rng.pick(&[0.0f32, 0.1, 0.5]), rng.chance(1, 4));
-        self.compact_with(a, b, c).await
+        self.compact_with(a, b, c && self.allow_deferred_remap).await
     }
     pub async fn compact_with(&mut self, target: usize, threshold: f32, defer: bool) -> Result<(), (bool, String)> {
         let opts = CompactionOptions { target_rows_per_fragment: target, materialize_deletions: true, materialize_deletions_threshold: threshold, defer_index_remap: defer, ..Default::default() };
@@ -636,7 +665,6 @@ pub async fn oracles_c05(t: &Tbl, m: &MManifest, st: &mut Streams, sink: &mut Si
     let case = json!({"history": t.hist, "version": m.version});
     // 1. Dataset::validate(): must succeed on every committed version; its verdict is also compared with the
     //    model's transcription validate_dataset on the exported manifest (indices as load_indices returns them)
-    let tombstoned = m.fragments.iter().any(|f| f.files.iter().any(|d| d.fields.contains(&-2)));
     let ds = t.ds.clone();
     let verdict = guarded(async move { ds.validate().await }).await;
     let fri_panic = matches!(&verdict, Err((true, e)) if e.contains("split of indexed and non-indexed"));
@@ -645,8 +673,6 @@ pub async fn oracles_c05(t: &Tbl, m: &MManifest, st: &mut Streams, sink: &mut Si
         Err((p, e)) => {
             let class = if fri_panic && t.deferred_remap_on_stable {
                 Some("stable_rowids_deferred_remap_unassigned_fragment_ids")
-            } else if !*p && tombstoned && e.contains("Field id -2 is not in increasing order") {
-                Some("validate_rejects_tombstoned_field")
             } else {
                 None
             };
@@ -686,6 +712,55 @@ pub async fn oracles_c05(t: &Tbl, m: &MManifest, st: &mut Streams, sink: &mut Si
     }
 }
 
+/// Read back every version committed since the last call, push it to the streams, run the direct oracles on
+/// the latest one.
+pub async fn after_step(ctx: &mut Ctx, t: &mut Tbl, st: &mut Streams, sink: &mut Sink) {
+    let latest = t.ds.version().version;
+    let mut last = None;
+    for v in (t.verified + 1)..=latest {
+        match export_version(ctx, t, v, st, sink, "C05").await {
+            Ok(e) => last = Some(e),
+            Err(e) => {
+                let class = if t.deferred_remap_on_stable && e.contains("split of indexed and non-indexed") { Some("stable_rowids_deferred_remap_unassigned_fragment_ids") } else { None };
+                sink.oracle_fail(class, &format!("committed version {v} cannot be read back: {}", e.chars().take(260).collect::<String>()), json!({"history": t.hist, "version": v}))
+            }
+        }
+    }
+    t.verified = latest;
+    t.expect_at.insert(latest, (t.expect.clone(), t.extra.clone()));
+    if let Some(e) = last {
+        oracles_c05(t, &e.manifest, st, sink).await;
+    }
+}
+
+/// Fixed regression histories that run before the generated ones.
+pub async fn corpus(st: &mut Streams, sink: &mut Sink) {
+    // (1) former finding validate_rejects_tombstoned_field (repaired: /repo 77d5a8a): a partial-schema
+    //     merge_insert leaves a tombstoned field in the old data file; validate() must accept that version
+    {
+        let mut ctx = Ctx::default();
+        let mut t = Tbl::create_with(false, LanceFileVersion::V2_0, 1000, 3).await;
+        after_step(&mut ctx, &mut t, st, sink).await;
+        let mut rng = Rng::new(7);
+        if let Err((p, e)) = t.merge_update_columns(&mut rng).await {
+            sink.oracle_fail(None, &format!("corpus: partial-schema merge_insert {}: {e}", if p { "panicked" } else { "failed" }), json!({"history": t.hist}));
+        }
+        after_step(&mut ctx, &mut t, st, sink).await;
+        sink.count("e2e:corpus:tombstoned-field-validates");
+    }
+    // (2) known finding stable_rowids_deferred_remap_unassigned_fragment_ids
+    {
+        let mut ctx = Ctx::default();
+        let mut t = Tbl::create_with(true, LanceFileVersion::V2_1, 4, 15).await;
+        after_step(&mut ctx, &mut t, st, sink).await;
+        if let Err((p, e)) = t.compact_with(20, 0.1, true).await {
+            sink.oracle_fail(None, &format!("corpus: compaction {}: {e}", if p { "panicked" } else { "failed" }), json!({"history": t.hist}));
+        }
+        after_step(&mut ctx, &mut t, st, sink).await;
+        sink.count("e2e:corpus:deferred-remap-on-stable");
+    }
+}
+
 pub const STEP_NAMES: [&str; 14] = ["append", "delete", "update", "merge_insert", "overwrite", "compact", "add_column", "drop_column", "restore", "create_index", "optimize_indices", "update_config", "stale_pair", "merge_update_columns"];
 
 pub async fn step(t: &mut Tbl, rng: &mut Rng, which: usize) -> Result<(), (bool, String)> {
@@ -717,6 +792,7 @@ pub fn run_e2e(args: &Args, sink: &mut Sink, rng: &mut Rng) {
     let n_hist = args.vol(14, 160);
     let mut st = Streams::new();
     rt.block_on(async {
+        corpus(&mut st, sink).await;
         for h in 0..n_hist {
             let mut ctx = Ctx::default();
             let stable = h % 2 == 1;
@@ -739,22 +815,7 @@ pub fn run_e2e(args: &Args, sink: &mut Sink, rng: &mut Rng) {
                         }
                     }
                 }
-                let latest = t.ds.version().version;
-                let mut last = None;
-                for v in (t.verified + 1)..=latest {
-                    match export_version(&mut ctx, &t, v, &mut st, sink, "C05").await {
-                        Ok(e) => last = Some(e),
-                        Err(e) => {
-                            let class = if t.deferred_remap_on_stable && e.contains("split of indexed and non-indexed") { Some("stable_rowids_deferred_remap_unassigned_fragment_ids") } else { None };
-                            sink.oracle_fail(class, &format!("committed version {v} cannot be read back: {}", e.chars().take(260).collect::<String>()), json!({"history": t.hist, "version": v}))
-                        }
-                    }
-                }
-                t.verified = latest;
-                t.expect_at.insert(latest, (t.expect.clone(), t.extra.clone()));
-                if let Some(e) = last {
-                    oracles_c05(&t, &e.manifest, &mut st, sink).await;
-                }
+                after_step(&mut ctx, &mut t, &mut st, sink).await;
             }
             sink.count(if stable { "e2e:history:stable-row-ids" } else { "e2e:history:plain" });
         }
